@@ -38,6 +38,9 @@ def plan(tier, seed):
     for k in range(2 if q else 8):
         specs.append({"stratum": "json-big-costs", "family": "json", "n": 8 if q else 40, "k": k, "clean": True, "bigcost": True,
                       "case_timeout": 120, "shrink": False})
+    for k in range(2 if q else 8):
+        specs.append({"stratum": "json-deep-and-wide", "family": "json", "n": 20 if q else 120, "k": k, "clean": True, "deepwide": True,
+                      "case_timeout": 240, "shrink": False})
     if not q:
         for k in range(8):
             specs.append({"stratum": "json-large-documents", "family": "json", "n": 250, "k": k, "clean": True, "profile": "large",
@@ -93,6 +96,68 @@ def gen_cases(spec, ctx):
                 a, b = {"rows": a, "meta": 1}, {"rows": b, "meta": 1}
             # (positional comparison of a list cut in the middle would pair hundreds of unrelated long strings: keep it cheap)
             ds, le = r.choice(gen.DS), ("on" if kind == "cut-middle" else r.choice(["on", "off"]))
+            yield {"family": "json", "a": a, "b": b, "ds": ds, "le": le}
+        return
+    if spec.get("deepwide"):
+        # sizes beyond a handful of elements: chains nested 12-26 levels deep, lists of 100-400 scalars, mappings of 100-300 keys,
+        # each with a few local edits (cheap to diff; recursion depth, matrix sizes and matching sizes are what is exercised)
+        for _ in range(spec["n"]):
+            kind = r.choice(["deep", "deep", "wide-list", "wide-dict"])
+            if kind == "deep":
+                n = r.randint(12, 26)
+                at = r.randint(0, n - 1)
+                def chain(leaf, extra):
+                    o = leaf
+                    for i in range(n):
+                        if i % 2:
+                            o = [o, i] + (extra if i == at else [])
+                        else:
+                            o = {"k": o, "j": i, **({"x": extra} if i == at and extra else {})}
+                    return o
+                a = chain(r.choice(["x", 2, [], {}]), [])
+                b = chain(r.choice(["x", "y", 3, [2], {"q": 2}]), r.choice([[], ["new"], [[2, 3]]]))
+            elif kind == "wide-list":
+                n = r.choice([100, 150, 250, 400])
+                pool = r.choice([list(range(2, 12)), ["a", "b", "ab", "ba", "abc"], list(range(2, 200))])
+                a = [r.choice(pool) for _ in range(n)]
+                b = list(a)
+                for _ in range(r.randint(1, 6)):
+                    x = r.random()
+                    i = r.randrange(len(b))
+                    if x < 0.3:
+                        del b[i]
+                    elif x < 0.6:
+                        b.insert(i, r.choice(pool + ["new"]))
+                    elif x < 0.85:
+                        b[i] = r.choice(pool + [[2, 3]])
+                    else:
+                        j = r.randrange(len(b))
+                        b[i], b[j] = b[j], b[i]
+            else:
+                n = r.choice([100, 200, 300])
+                a = {f"k{i:03d}": r.choice([2, 3, "a", "ab", [2], {"z": 2}]) for i in range(n)}
+                b = dict(a)
+                for _ in range(r.randint(1, 6)):
+                    k = r.choice(list(b))
+                    x = r.random()
+                    if x < 0.3:
+                        del b[k]
+                    elif x < 0.55:
+                        b[k + "x"] = b.pop(k)
+                    elif x < 0.8:
+                        b[k] = r.choice([5, "abc", [2, 3], None])
+                    else:
+                        b["new%d" % r.randrange(10)] = r.choice([2, "a"])
+            if r.random() < 0.3:
+                a, b = b, a
+            ds = r.choice(gen.DS) if kind != "wide-dict" else r.choice(["auto", "auto", "none", "match"])
+            le = r.choice(gen.LE)
+            if kind == "deep" and ds == "none" and le != "on" and n > 16:
+                # (observed, outside every listed property: with key edits and list edits both off, the time graphtage needs
+                # doubles with every two levels of nesting -- 30 levels take seconds, 60 would take days)
+                le = "on"
+            if kind == "wide-dict" and ds == "match" and len(a) > 100:
+                ds = "auto"          # (a 300 x 300 assignment over compound edits is minutes of work, not a different code path)
             yield {"family": "json", "a": a, "b": b, "ds": ds, "le": le}
         return
     fam = spec["family"]
